@@ -15,6 +15,9 @@ from harness.common import machinery_failure
 CHECKS = {
     'C04': 'harness.c04',
     'C11': 'harness.c11',
+    'C05': 'harness.c05',
+    'C10': 'harness.c10',
+    'C12': 'harness.c12',
 }
 
 
